@@ -615,7 +615,7 @@ def cfg_path(ctx, cfg):
     return out
 
 
-def stream(ctx, objdir, cfg, label, stats, simulate=None, depth=None, audit_every=1, workers=8, keep_units=0, timeout=3000):
+def stream(ctx, objdir, cfg, label, stats, simulate=None, depth=None, audit_every=1, workers=8, keep_units=0, keep_stride=None, timeout=3000):
     """Run TLC on Linkage.tla/cfg; judge the emitted cases against the binary (and gcc) in chunks while TLC is running."""
     import queue, threading
     q = queue.Queue(maxsize=3)
@@ -644,7 +644,7 @@ def stream(ctx, objdir, cfg, label, stats, simulate=None, depth=None, audit_ever
                             stats["rules"].add(part["spec"]["rule"])
                         stats["devs"].update(part["fired"])
                 if keep_units and len(kept) < keep_units:
-                    for c in chunk[::max(1, len(chunk) // 40)]:
+                    for c in chunk[::keep_stride or max(1, len(chunk) // 40)]:
                         if c["spec"]["cls"] != "ub":
                             kept.append(("unit:" + canon_hist(c["h"]), render(c["h"], c["skip"])))
                 if len(ctx.cov["samples"]) < 5:
@@ -704,6 +704,10 @@ def run(ctx):
     # B'. objects whose first declaration carries an __asm__ label, length 3 (block auto/static hiding the file-scope
     #     declaration, nested extern: the re-lookup of the file-scope prior in declcommon)
     stream(ctx, objdir, "MC_Linkage_asm_quick.cfg", "a", stats, workers=8)
+    # B''. exhaustive multi-identifier family around the shared tentative-definition list: 3 identifiers, file-scope object
+    #      declarations (tentative / initialised / static / extern), every interleaving of <= 4 (quick) / <= 5 declarations
+    rt, unitst = stream(ctx, objdir, "MC_Linkage_tent_quick.cfg" if q else "MC_Linkage_tent_thorough.cfg", "t", stats,
+                        keep_units=400 if q else 1000, keep_stride=11, workers=8)
     # C. random multi-identifier units
     r3, units3 = stream(ctx, objdir, "MC_Linkage_sim.cfg", "s", stats, simulate=1 if q else 24, depth=12, keep_units=100 if q else 400, workers=4 if q else 8)   # num is per worker; TLC checks (and so emits) every generated successor
     # vacuity guard: every rule of the specification and every named deviation occurred
@@ -715,7 +719,7 @@ def run(ctx):
     if missing:
         raise vlib.MachineryError("vacuity guard: never exercised: %s" % sorted(missing))
     # D. flow B
-    flow_b(ctx, units + units3)
+    flow_b(ctx, units + unitst + units3)
     ctx.cov["exhaustive"] = True
 
 
